@@ -24,7 +24,7 @@ MANIFEST = {
     "technique": "Rocq/Coq proof over hand-written model + correspondence check (extracted OCaml vs Rust harness)"
 }
 
-RULE = ("histories: 12 edits of serde attributes (rename equal to the identifier under a rule, rename_all added / removed / changed / respelled, skip toggled, rename added / changed, fields and variants) as histories v1 v2 v1 of unforced runs into one output directory, CLI and build route, both modes, keys judged after every run; routes: 4 containers x 11 configuration routes (init, init then generate, init -v zod, init -o file then generate -c, generate -c, tauri.conf.json in three places, from_tauri_config, BuildSystem with tauri.conf.json / typegen.json) x the default_field_case written (absent / 4 values incl. an unknown one), real CLI binary in a sandbox; types: 17 field types x 3 rules x 4 attribute shapes; spellings: {struct, enum} x 9 container rules x 12 spellings of the container attributes (rename_all = .., rename_all(serialize = .., deserialize = ..) same / one-sided / different / either order, other keys before and after, split attributes) x unit / tuple / struct variants on multi-word identifiers; every stream: three white-space styles, variant shapes, rename(serialize = .., deserialize = ..); exhaustive: 9 container rules x {struct, enum} x every item-attribute shape of the generator (none, rename, skip, "
+RULE = ("gated: 128 containers whose rename_all / rename / skip sit behind cfg_attr with a predicate that is false in the oracle's build (5 predicates), alone and beside real attributes, also drawn in random; histories: 12 edits of serde attributes (rename equal to the identifier under a rule, rename_all added / removed / changed / respelled, skip toggled, rename added / changed, fields and variants) as histories v1 v2 v1 of unforced runs into one output directory, CLI and build route, both modes, keys judged after every run; routes: 4 containers x 11 configuration routes (init, init then generate, init -v zod, init -o file then generate -c, generate -c, tauri.conf.json in three places, from_tauri_config, BuildSystem with tauri.conf.json / typegen.json) x the default_field_case written (absent / 4 values incl. an unknown one), real CLI binary in a sandbox; types: 17 field types x 3 rules x 4 attribute shapes; spellings: {struct, enum} x 9 container rules x 12 spellings of the container attributes (rename_all = .., rename_all(serialize = .., deserialize = ..) same / one-sided / different / either order, other keys before and after, split attributes) x unit / tuple / struct variants on multi-word identifiers; every stream: three white-space styles, variant shapes, rename(serialize = .., deserialize = ..); exhaustive: 9 container rules x {struct, enum} x every item-attribute shape of the generator (none, rename, skip, "
         "skip_serializing_if, default, default = s, pairs in both orders, split over two #[serde]) x 16 identifier shapes, one "
         "item per container (quick: every third (shape, identifier) pair per rule; thorough: all); random: containers of 1-5 items with 0-3 attributes each over a value alphabet containing skip / "
         "rename / quotes / backslashes / non-ASCII; malformed: out-of-domain attribute text (correspondence only); real-serde: the "
@@ -78,7 +78,7 @@ def evaluate_raw(cases):
     res = dict(zip(idx, vlib.run_runner("c06-eval-raw", req)))
     outs = []
     for i, (c, o) in enumerate(zip(cases, obs)):
-        case = {k: c[k] for k in ("kind", "cattrs", "items", "dfc", "ws") if k in c}
+        case = {k: c[k] for k in ("kind", "cattrs", "cgated", "items", "dfc", "ws") if k in c}
         if o.get("skipped"):
             continue
         if "syn_error" in o or o.get("no_info"):
@@ -146,7 +146,7 @@ def evaluate(cases, e2e=True):
                 kf = kid
                 break
         nontrivial = bool(c.get("cattrs")) or any(it.get("attrs") for it in c["items"])
-        case = {k: c[k] for k in ("kind", "cattrs", "items", "dfc", "ws") if k in c}
+        case = {k: c[k] for k in ("kind", "cattrs", "cgated", "items", "dfc", "ws") if k in c}
         if "panic" in o:
             corr = model_names is None
             outs.append(Outcome(case, corr, (not in_dom) and corr, kf, {"impl": "PANIC " + str(o["panic"]), "model": model, "in_domain": in_dom}, nontrivial))
@@ -207,6 +207,8 @@ def real_serde_outcomes():
         "types": {"kind": "struct", "cattrs": [[["ra", "camelCase"]]], "items": plain(
             ["plain_field", "marker_a", "marker_b", "unit_field", "empty_arr", "boxed_val", "cow_val", "str_ref", "opt_unit", "bytes_vec", "pair_val"])
             + [{"ident": "skipped_marker", "attrs": [[["skip"]]]}]},
+        "gated_s": {"kind": "struct", "cattrs": [], "items": plain(["first_name", "legacy_id", "debug_info"])},
+        "gated_e": {"kind": "enum", "cattrs": [], "items": plain(["InProgress", "Done"])},
         "fieldsonly": {"kind": "enum", "cattrs": [[["kv", "rename_all_fields", "camelCase"]]], "items": plain(["TaskStarted", "Idle"])},
     }
     for k, c in extra.items():
@@ -367,6 +369,7 @@ def run_streams(rep):
         ("corpus", corpus_cases()),
         ("spellings", gen.spellings()),
         ("types", gen.typed_fields()),
+        ("gated", gen.gated_cases()),
         ("exhaustive", gen.exhaustive(thorough)),
         ("random", gen.random_cases(rng, 60000 if thorough else 4000)),
         ("config", gen.config_cases(rng, 2000 if thorough else 300)),
